@@ -433,6 +433,8 @@ class Check:
                     "untranslated": self.lean.untranslated,
                 }
             )
+        if getattr(self, "modelled", None):
+            cov["modelled_sources"] = source_fingerprints(self.modelled)
         if self.explanation:
             cov["explanation"] = self.explanation
         cov.update({k: v for k, v in self.extra_cov.items() if k != "gen_keys"})
@@ -448,6 +450,34 @@ class Check:
         }
         (VERIF / "evidence").mkdir(exist_ok=True)
         (VERIF / "evidence" / f"{self.pid}.json").write_text(json.dumps(ev, indent=1))
+
+
+def source_fingerprints(names: list[str]) -> dict:
+    """sha256 of the CURRENT source of the functions / classes a hand-written model mirrors (recorded in the evidence:
+    which version of the code the correspondence was established against)"""
+    import hashlib
+    import importlib
+    import inspect
+
+    out = {}
+    for name in names:
+        try:
+            parts = name.split(".")
+            obj = None
+            for k in range(len(parts), 0, -1):
+                try:
+                    obj = importlib.import_module(".".join(parts[:k]))
+                    rest = parts[k:]
+                    break
+                except ImportError:
+                    continue
+            for a in rest:
+                obj = getattr(obj, a)
+            obj = getattr(obj, "fget", obj)
+            out[name] = hashlib.sha256(inspect.getsource(obj).encode()).hexdigest()[:16]
+        except Exception as e:  # noqa: BLE001
+            out[name] = f"unavailable ({type(e).__name__})"
+    return out
 
 
 def rel_close(a: float, b: float, rtol: float, atol: float = 0.0) -> bool:
